@@ -8,6 +8,7 @@ import (
 	"os/exec"
 	"path/filepath"
 	"regexp"
+	"sort"
 	"strconv"
 	"strings"
 	"sync"
@@ -26,7 +27,8 @@ func init() {
 		ID:    "C08",
 		Level: "exploration",
 		Rule: "(a) 'cuts', metamorphic: a generated model is rendered as one file and as a project cut into files (any run of complete top-level directives or of complete implicitly nested children moved into another file with an INCLUDE in its place; " +
-			"included files in the including file's directory or below; nesting to the depth bound; several files from one place): same verdict, byte-identical catalog. " +
+			"included files in the including file's directory or below; nesting to the depth bound; several files from one place; also under implicitly nested directives that stand inside parenthesised ones; " +
+			"a third of the included files without a final line break; extra INCLUDEs of files that hold no directive at all - empty, blank, comment-only): same verdict, byte-identical catalog. " +
 			"(b) 'names', bounded-exhaustive and end-to-end: every string over {. / \\ a b} up to the length bound is used as INCLUDE <name> in a real project inside a scratch tree that has files and directories of those names inside the project directory " +
 			"and marker files at every ancestor level outside it: dangerous (absolute, a '.' or '..' component, a backslash) => rejected; no accepted catalog holds a marker declared outside the project directory. " +
 			"(c) 'targets': absent file, directory, empty file, path through a file (ENOTDIR), symlink loop (ELOOP), dangling symlink, self-include, two- and three-file cycles, JSIGHT in an included file, and (strace-injected) unreadable / un-stat-able targets: a diagnostic, never a crash, never acceptance of a cycle. " +
@@ -50,6 +52,8 @@ func init() {
 	})
 	fw.RegisterAux("c08opens", c08AuxOpens)
 }
+
+var c08JsightLine = regexp.MustCompile(`^[ \t]*JSIGHT[ \t]+"?0\.3"?[ \t]*(\r\n|\n|\r)`)
 
 var c08Opt = gen.Options{MaxBlocks: 12, AllowAllOf: true}
 
@@ -95,6 +99,52 @@ func c08EvalCuts(t *fw.T, c *fw.Case) {
 	files := map[string][]byte{"root.jst": []byte(cut.Text)}
 	for k, v := range cut.Files {
 		files[k] = []byte(v)
+	}
+	// the files of a project need not end with a line break, and a file may hold no directive at all (empty, blank lines,
+	// comments only): including it is the inclusion of nothing
+	{
+		h := xrand.New(r.Uint64())
+		names := make([]string, 0, len(files))
+		for k := range files {
+			names = append(names, k)
+		}
+		sort.Strings(names)
+		nothing := [][]byte{{}, []byte("\n\n"), []byte("# to be filled in\n"), []byte("###\nnothing yet\n###\n"), []byte("   \n\t\n"), []byte("# no line break at the end")}
+		nEmpty := 0
+		addNothing := func(dir string, text []byte, at int, nl string) []byte {
+			nEmpty++
+			nm := fmt.Sprintf("zznothing%d.jst", nEmpty)
+			if dir == "." {
+				files[nm] = nothing[h.Intn(len(nothing))]
+			} else {
+				files[dir+"/"+nm] = nothing[h.Intn(len(nothing))]
+			}
+			ins := []byte("INCLUDE " + nm + nl)
+			return append(append(append([]byte{}, text[:at]...), ins...), text[at:]...)
+		}
+		for _, k := range names {
+			v := files[k]
+			nl := "\n"
+			if bytes.Contains(v, []byte("\r\n")) {
+				nl = "\r\n"
+			} else if bytes.Contains(v, []byte("\r")) {
+				nl = "\r"
+			}
+			if k != "root.jst" {
+				if h.Chance(1, 4) {
+					v = addNothing(filepath.ToSlash(filepath.Dir(k)), v, 0, nl)
+					t.Count("includes_of_nothing")
+				}
+				if h.Chance(1, 3) {
+					v = bytes.TrimRight(v, "\r\n")
+					t.Count("files_without_final_line_break")
+				}
+			} else if loc := c08JsightLine.FindIndex(v); loc != nil && h.Chance(1, 2) {
+				v = addNothing(".", v, loc[1], nl)
+				t.Count("includes_of_nothing")
+			}
+			files[k] = v
+		}
 	}
 	dc := run.Doc{Files: files, Root: "root.jst", FixedSeed: true}
 	dw := run.Single([]byte(whole.Text))
